@@ -4,11 +4,11 @@ CONSTANTS
     Nodes = {n1, n2}
     MaxNum = 0
     MaxCid = 1
-    MaxSteps = 2
-    Mode = "layouts"
+    MaxSteps = 3
+    Mode = "live"
     InstanceMemory = FALSE
     FindPrefersDirectChild = FALSE
-    ExcuseDecoy = FALSE
+    ExcuseDecoy = TRUE
 SPECIFICATION Spec
-INVARIANTS Determined
+INVARIANTS Determined Sensitive
 CHECK_DEADLOCK FALSE
